@@ -16,6 +16,7 @@ import (
 	"verifharness/bridge"
 	"verifharness/core"
 	"verifharness/libsa"
+	"verifharness/ref"
 )
 
 func init() { core.Register("C11", c11) }
@@ -313,6 +314,7 @@ func c11(c *core.Ctx) {
 	})
 	c11Proposals(c)
 	c11OfferedLists(c)
+	c11ForeignTransformTypes(c)
 	c11FirstCalls(c)
 }
 
@@ -578,6 +580,94 @@ func c11OfferedLists(c *core.Ctx) {
 		k.Distinct(fmt.Sprintf("offered|%d", n))
 	})
 	c.Require("proposals_as_views_of_offered_lists")
+}
+
+// a received proposal that carries, besides the advertised single choices, a transform of a TYPE this version does
+// not know (0, 6..255, e.g. RFC 9370 additional key exchanges) at any position: the SA built from it has exactly
+// the advertised algorithms of the proposal - or building it fails - never silently other ones
+func c11ForeignTransformTypes(c *core.Ctx) {
+	c.Family("foreign-transform-types", c.N(240, 24000), func(k *core.Case) {
+		child := k.Index%2 == 1
+		e, i, p, d := k.R.Intn(3), k.R.Intn(3), k.R.Intn(3), k.R.Intn(2)
+		var ap abs.Proposal
+		if child {
+			src := newChild(e, i+1)
+			src.DhInfo = nil
+			if k.R.Bool() {
+				src.DhInfo = dh.StrToType(libsa.DhNames[d])
+			} else {
+				d = -1
+			}
+			en, _ := esn.StrToType("ESN_DISABLE")
+			src.EsnInfo = en
+			pr, err := src.ToProposal()
+			if err != nil {
+				return
+			}
+			ap = bridge.ObserveProposal(pr)
+		} else {
+			pr, err := newInfoKey(e, i, p, d).ToProposal()
+			if err != nil {
+				return
+			}
+			ap = bridge.ObserveProposal(pr)
+		}
+		ap.Num, ap.Proto = 1, map[bool]uint8{false: 1, true: 3}[child]
+		if child {
+			ap.SPI = abs.HB{1, 2, 3, 4}
+		}
+		ft := abs.Transform{Type: uint8(k.R.Pick(0, 6, 7, 8, 12, 200, 255)), ID: uint16(k.R.Pick(0, 1, 2, 12, 14, 35, 36, 65535))}
+		if k.R.Bool() {
+			ft.HasAttr, ft.TV, ft.AttrType, ft.AttrVal = true, true, 14, uint16(k.R.Pick(128, 256))
+		}
+		pos := k.R.Intn(len(ap.Transforms) + 1)
+		ap.Transforms = append(ap.Transforms[:pos:pos], append([]abs.Transform{ft}, ap.Transforms[pos:]...)...)
+		wire, err := ref.EncodeMsg(&abs.Msg{Major: 2, Exch: 34, Payloads: []abs.Payload{{Kind: abs.PSA, SA: &abs.SA{Proposals: []abs.Proposal{ap}}}}}, nil)
+		if err != nil {
+			return
+		}
+		k.Eval(1)
+		w := M{"proposal": ap, "wire": core.Hex(wire), "foreign_transform_at": pos, "child": child}
+		back, derr, dp := libDecodeKeep(wire)
+		if dp != nil {
+			k.Violate("panic", "foreign-transform: "+dp.Sig(), "panic", panicData(dp, w))
+			return
+		}
+		if derr != nil {
+			k.Count("proposal_with_foreign_transform_type_refused_at_decode", 1)
+			return
+		}
+		rp := back.Payloads[0].(*message.SecurityAssociation).Proposals[0]
+		pn := core.Try(func() {
+			if child {
+				ck, err := security.NewChildSAKeyByProposal(rp)
+				if err != nil || ck == nil {
+					k.Count("proposal_with_foreign_transform_type_refused", 1)
+					return
+				}
+				okDh := (d < 0 && ck.DhInfo == nil) || (d >= 0 && ck.DhInfo != nil && ck.DhInfo.TransformID() == []uint16{2, 14}[d])
+				if ck.EncrKInfo == nil || ck.EncrKInfo.GetKeyLength() != []int{16, 24, 32}[e] || ck.IntegKInfo == nil || ck.IntegKInfo.TransformID() != []uint16{1, 2, 12}[i] || !okDh {
+					k.Violate("mapping", "received-transform-not-honoured-when-a-foreign-transform-type-is-present/child", fmt.Sprintf("integ=%v dh=%v", ck.IntegKInfo != nil, ck.DhInfo != nil), w)
+					return
+				}
+			} else {
+				key, _, err := security.NewIKESAKey(rp, make([]byte, []int{128, 256}[d]), []byte("nonces"), 1, 2)
+				if err != nil || key == nil {
+					k.Count("proposal_with_foreign_transform_type_refused", 1)
+					return
+				}
+				if key.EncrInfo.GetKeyLength() != []int{16, 24, 32}[e] || key.IntegInfo.TransformID() != []uint16{1, 2, 12}[i] || key.PrfInfo.TransformID() != []uint16{1, 2, 5}[p] || key.DhInfo.TransformID() != []uint16{2, 14}[d] {
+					k.Violate("mapping", "received-transform-not-honoured-when-a-foreign-transform-type-is-present/ike", "", w)
+					return
+				}
+			}
+			k.Count("proposals_with_a_foreign_transform_type_built", 1)
+		})
+		if pn != nil {
+			k.Violate("panic", "foreign-transform-build: "+pn.Sig(), "panic", panicData(pn, w))
+		}
+	})
+	c.Require("proposals_with_a_foreign_transform_type_built")
 }
 
 func c11Proposals(c *core.Ctx) {
